@@ -67,6 +67,7 @@ const (
 	opMergeOwn  // Merge({to: Child(from)}): copy a subtree of the config to another key of the same config
 	opMergeList // Merge([l, {x:l}, [l]], policy): a list merged into the root itself
 	opHMerge    // H.Merge(list or dict, policy): the receiver is a child that holds the list/dict itself
+	opMergeLive // Merge(Child(x)): a live sub-config of the same tree passed directly as the source
 )
 
 type pathOp struct {
@@ -108,6 +109,12 @@ func (o pathOp) String() string {
 			return fmt.Sprintf("H.Merge([%s,{x:%s},[%s]],%s)", o.Label, o.Label, o.Label, o.Policy)
 		}
 		return fmt.Sprintf("H.Merge({x:%s,l:[%s]},%s)", o.Label, o.Label, o.Policy)
+	case opMergeLive:
+		switch o.A.Idx {
+		case 0, 1:
+			return fmt.Sprintf("Merge(Child%v)", o.From)
+		}
+		return "H.Merge(Child(the other top-level key))"
 	}
 	return "?"
 }
@@ -181,6 +188,9 @@ func buildPathUniverse(prop string, rich bool) *pathUniverse {
 		u.ops = append(u.ops, pathOp{Kind: opHMerge, Policy: p, Label: fmt.Sprintf("HL%d", i), A: addr{"", 0, false}})
 		u.ops = append(u.ops, pathOp{Kind: opHMerge, Policy: p, Label: fmt.Sprintf("HD%d", i), A: addr{"", 1, false}})
 	}
+	u.ops = append(u.ops, pathOp{Kind: opMergeLive, From: addr{"b", -1, false}, A: addr{"", 0, false}})
+	u.ops = append(u.ops, pathOp{Kind: opMergeLive, From: addr{"a", -1, false}, A: addr{"", 1, false}})
+	u.ops = append(u.ops, pathOp{Kind: opMergeLive, A: addr{"", 2, false}})
 	for _, a := range []addr{{"a", -1, true}, {"a", 0, true}, {"b", -1, false}} {
 		u.ops = append(u.ops, pathOp{Kind: opHandle, A: a})
 	}
@@ -364,12 +374,51 @@ func (st *pathState) apply(o pathOp) *core.Violation {
 		}
 		// the receiver stays the node of the tree it is (its settings are replaced by copies)
 		*st.mh = *tree.Merge(o.Policy, st.mh, msrc)
+	case opMergeLive:
+		from := o.From
+		if o.A.Idx == 2 {
+			if st.h == nil {
+				return nil
+			}
+			from = addr{"b", -1, false}
+			if strings.HasPrefix(st.mhPath, "b") || strings.HasPrefix(st.mhPath, "(b") || strings.Contains(st.mhPath, "\"b\"") {
+				from = addr{"a", -1, false}
+			}
+		}
+		mn, r := tree.Get(st.mroot, from.segs())
+		if r != tree.OK || mn.K != tree.Cont {
+			return nil
+		}
+		// a source holding a setting of its own name would be merged into itself on the way: not generated
+		if _, self := mn.D[from.Name]; self {
+			return nil
+		}
+		src, err := st.root.Child(from.Name, from.Idx, from.opts()...)
+		if err != nil {
+			return bad("child-missing", err.Error())
+		}
+		if o.A.Idx == 2 {
+			// the handle must not lie inside the source (nor the source inside the handle)
+			if hn, _ := tree.Get(st.mroot, []tree.Seg{{Name: from.Name}}); hn == st.mh {
+				return nil
+			}
+			if err := st.h.Merge(src, ucfg.PathSep(".")); err != nil {
+				return bad("error", err.Error())
+			}
+			*st.mh = *tree.Merge(tree.Default, st.mh, mn.Clone())
+			return nil
+		}
+		if err := st.root.Merge(src, ucfg.PathSep(".")); err != nil {
+			return bad("error", err.Error())
+		}
+		st.mroot = tree.Merge(tree.Default, st.mroot, mn.Clone())
+		st.h, st.mh = nil, nil
 	}
 	return nil
 }
 
 func opKindName(k pathOpKind) string {
-	return [...]string{"SetString", "SetInt", "SetChild", "Remove", "Merge", "Child", "H.SetString", "H.SetChild", "H.Remove", "Reattach", "MergeOwnChild", "MergeList", "H.Merge"}[k]
+	return [...]string{"SetString", "SetInt", "SetChild", "Remove", "Merge", "Child", "H.SetString", "H.SetChild", "H.Remove", "Reattach", "MergeOwnChild", "MergeList", "H.Merge", "MergeLiveChild"}[k]
 }
 
 // observeC12 compares every observation with the model in the current state.
@@ -618,6 +667,16 @@ func (u *pathUniverse) exec(hist []int) core.Result {
 			if v != nil && k == len(hist)-1 && u.prop == "C12" {
 				viol = v
 				return
+			}
+			if k < len(hist)-1 {
+				// every observation is also made between the operations (their verdicts belong to
+				// the shorter history; what matters here is that reads happened before the next
+				// write - a read may leave something behind that the write invalidates)
+				if u.prop == "C12" {
+					u.observeC12(st)
+				} else {
+					u.observeC15(st)
+				}
 			}
 		}
 		if u.prop == "C12" {
